@@ -337,6 +337,24 @@ def gen_C04(tier, rng):
         else:
             ins.append(("op", rng.choice(EW_OPS), [0, 1]))
             cases.append(case("ew_random", ins, "random:refuse"))
+    # both operands are views of ONE buffer (reshape shares storage; so does a clone) under different dimensions:
+    # the result is decided by the dimensions, never by the identity of the storage - and incompatible views are refused
+    for s in [[2], [3], [4], [6], [2, 3], [3, 2], [2, 2], [1, 4], [2, 1, 3]]:
+        n = prod(s)
+        views = [t for t in all_shapes(3, 6) if prod(t) == n and t != s][:12] + [s]
+        for t in views:
+            for t2 in ([s] + views[:4]):
+                ins = [("leaf", False, s, [float(i + 1) for i in range(n)]), ("op", ("reshape", t), [0]),
+                       ("op", ("reshape", t2), [0]), ("clone", 0)]
+                pairs = [(1, 2), (2, 1), (0, 1), (1, 0), (3, 1)]
+                if bcompat(t, t2) and bcompat(s, t):
+                    for (u, v) in pairs:
+                        ins.append(("op", EW_OPS[(len(cases) + u) % 5], [u, v]))
+                    cases.append(case("ew_views", ins, "views_of_one_buffer:compatible"))
+                else:
+                    u, v = pairs[len(cases) % 2] if not bcompat(t, t2) else pairs[2 + len(cases) % 2]
+                    ins.append(("op", EW_OPS[len(cases) % 5], [u, v]))
+                    cases.append(case("ew_views", ins, "views_of_one_buffer:refuse"))
     return cases
 
 
@@ -344,7 +362,9 @@ PROPS["C04"] = {
     "gen": gen_C04,
     "rule": "all 120x120 ordered pairs of shapes of rank 1..4 with dimensions 1..3, operand values injective "
             "per position; compatible pairs run add, sub, mul, div and axpy, incompatible pairs must panic "
-            "(one operation per pair in the quick tier, all five in the thorough tier); plus seeded random "
+            "(one operation per pair in the quick tier, all five in the thorough tier); every size pair 1..8 at the "
+            "last and leading positions; larger ranks/sizes (rank 6, dimension 65); operands that are reshaped views or "
+            "clones of ONE buffer under different dimensions (compatible and incompatible); plus seeded random "
             "pairs with dimensions up to 6 and random floats; distinct = distinct program text",
     "exhaustive": {"quick": True, "thorough": True},
     "assumptions": [],
@@ -478,6 +498,20 @@ def gen_C05(tier, rng):
             ins.append(("leaf", False, f, int_vals(prod(f), rng, 10, 50)))
             ins.append(("op", ("matmul", ta, tb), [0, 1, 2]))
         cases.append(case("mm_sparse", ins, "structured_zeros"))
+    # both operands are views (reshape) or clones of ONE buffer: the product is decided by dimensions and flags only
+    for r_, c_ in itertools.product((1, 2, 3), repeat=2):
+        n = r_ * c_
+        base = [("leaf", False, [n], [float(i + 1) for i in range(n)]), ("op", ("reshape", [r_, c_]), [0]),
+                ("op", ("reshape", [c_, r_]), [0]), ("clone", 1)]
+        ins = list(base)
+        for (u, v, ta, tb) in [(1, 2, False, False), (2, 1, False, False), (1, 1, False, True), (1, 1, True, False),
+                               (1, 3, True, False), (1, 2, True, True), (2, 2, False, True), (1, 3, False, True)]:
+            ins.append(("op", ("matmul", ta, tb), [u, v]))
+        cases.append(case("mm_views", ins, "views_of_one_buffer"))
+        if r_ != c_:
+            for (u, v, ta, tb) in [(1, 1, False, False), (1, 2, False, True), (1, 3, False, False)]:
+                cases.append(case("mm_views_refuse", base + [("op", ("matmul", ta, tb), [u, v])],
+                                  "refuse:views_of_one_buffer"))
     count = 150 if tier == "quick" else 3000
     for _ in range(count):
         rows, inner, cols = (rng.randint(1, 5) for _ in range(3))
@@ -2383,6 +2417,43 @@ def gen_C12(tier, rng):
             if ill[0]:
                 c["skip_model"] = True
             cases.append(c)
+    # gradient arrays are arrays of their own: one taken from a pass and used as a tracked operand of a later,
+    # differentiated computation collects a gradient itself - and that must not show up in the gradient arrays of
+    # unrelated passes (same dimensions, omitted seeds), which start without any gradient
+    for n in range(60 if tier == "quick" else 800):
+        d = rng.choice([[2], [3], [2, 2], [1, 3]])
+        nel = prod(d)
+        def lf(tr=True):
+            return ("leaf", tr, d, [float(rng.randint(-3, 3)) for _ in range(nel)])
+        ins = [lf(), lf()]
+        k1 = rng.choice(["add", "sub", "axpy", "sum0"])
+        if k1 == "sum0":
+            ins.append(("op", ("sum", 0), [0]))
+        elif k1 == "axpy":
+            ins.append(("op", ("axpy", 1.0), [0, 1]))
+        else:
+            ins.append(("op", (k1,), [0, 1]))
+        r1 = len(ins) - 1
+        ins.append(("backward", r1, None))
+        src = rng.choice([0, r1])
+        ins.append(("fetchgrad", src))
+        g = len(ins) - 1
+        ins += [("tracked", g), lf()]
+        w = len(ins) - 1
+        ins.append(("op", (rng.choice(["mul", "add"]),), [g, w]))
+        z = len(ins) - 1
+        ins += [("backward", z, None if rng.random() < 0.7 else (d, [float(rng.randint(1, 3)) for _ in range(nel)])),
+                ("grad", g), ("grad", w)]
+        # an unrelated computation of the same dimensions
+        ins += [lf(), lf()]
+        a2 = len(ins) - 2
+        ins.append(("op", (rng.choice(["add", "sub"]),), [a2, a2 + 1]))
+        r2 = len(ins) - 1
+        ins += [("backward", r2, None), ("fetchgrad", a2), ("grad", len(ins) + 1), ("fetchgrad", r2),
+                ("grad", len(ins) + 3), ("grad", g), ("grad", a2), ("grad", 0)]
+        c = case("grad_arrays", ins, "gradient_arrays_are_their_own_arrays")
+        c["adjudicate"] = [i for i, x in enumerate(ins) if x[0] in ("grad", "fetchgrad")]
+        cases.append(c)
     return cases
 
 
@@ -2632,6 +2703,15 @@ def model_case(rng, tier):
             meta["val"] = len(ins) - 1
             ins.append(("forward", meta["val"]))
             ins.append(("drop", len(ins) - 1))
+            # the same values forwarded again at once under another batch shape (a reshaped view shares the
+            # buffer): the second result is that of the second shape
+            alt = {(): [1], (1,): [], (2,): [1, 2], (3,): [1, 3], (4,): [2, 2], (2, 2): [4], (2, 3): [3, 2],
+                   (3, 2): [6], (1, 3): [3], (8,): [2, 4], (9,): [3, 3], (16,): [4, 4]}.get(tuple(vb))
+            if kind == "dense" and alt is not None and rng.random() < 0.6:
+                ins.append(("op", ("reshape", alt + feat), [meta["val"]]))
+                ins.append(("forward", len(ins) - 1))
+                ins.append(("drop", len(ins) - 1))
+                ins.append(("drop", len(ins) - 3))
         # C18: once the model has moved on, the previous input is sole owner of its buffer again
         if it > 0 and rng.random() < 0.5:
             prev = meta["iters"][it - 1]["input"]
@@ -2921,6 +3001,34 @@ def gen_C08(tier, rng):
         c["snaps"] = snaps
         c["lenient_missing"] = True
         cases.append(c)
+    # user-defined derivative closures that KEEP a handle on every array they hand back (a gradient hook): those
+    # arrays are existing arrays like any other and must not change afterwards, however the engine accumulates
+    # them.  Graphs where such a result meets other consumers of the same operand in either order, several passes.
+    for n in range(150 if tier == "quick" else 2000):
+        b = randprog.Builder(rng, exact=True)
+        d0 = rng.choice([[2], [3], [2, 2]])
+        leaves = [b.leaf(d0, tracked=True) for _ in range(rng.randint(1, 3))]
+        nodes = list(leaves)
+        for _ in range(rng.randint(1, 5)):
+            kind = rng.choice(["mulk", "affk", "sqk", "add", "mul", "sub"])
+            x, y = rng.choice(nodes), rng.choice(nodes)
+            if kind == "sqk":
+                v = b.result(("custom", kind), [x], d0, False, True, 0)
+            elif kind.endswith("k"):
+                v = b.result(("custom", kind), [x, y], d0, False, True, 0)
+            else:
+                v = b.result((kind,), [x, y], d0, False, True, 0)
+            v.tracked = True
+            nodes.append(v)
+        ops_ = nodes[len(leaves):]
+        for _ in range(rng.randint(1, 3)):
+            root = rng.choice(ops_)
+            b.emit(("backward", root.idx, b.seed_for(root, "int")))
+        for v in leaves:
+            b.emit(("grad", v.idx))
+        c = case("kept", b.ins, "closures_keeping_handles")
+        c["expect_kept"] = True
+        cases.append(c)
     return cases
 
 
@@ -2953,6 +3061,27 @@ def post_immutable(cases, rust, model):
 
 POST["immutable"] = post_immutable
 
+
+def post_kept_unchanged(cases, rust, model):
+    """the arrays handed back by the harness's handle-keeping closures still hold the values they had when
+    they were returned (reported by the harness itself at the end of each program)"""
+    fails = []
+    n = 0
+    for i, c in enumerate(cases):
+        k = c.get("kept_handles")
+        if not k:
+            continue
+        n += 1
+        if k[0] != 0:
+            fails.append({"case": i, "confirmed": True,
+                          "reason": "%d of the %d arrays returned by user closures (which kept a handle on them) hold "
+                                    "other values at the end of the program than when they were returned: an existing "
+                                    "array changed" % (k[0], k[1])})
+    return fails, n
+
+
+POST["kept_unchanged"] = post_kept_unchanged
+
 PROPS["C08"] = {
     "gen": gen_C08,
     "model_is_spec": False,
@@ -2960,11 +3089,13 @@ PROPS["C08"] = {
             "clones, backward passes, fetched gradients, gradient clears, optimizer updates of some leaves (with clones "
             "of the old parameter kept alive) and drops; after every step a snapshot of the dimensions and values of "
             "every live handle; adjudicated on corgi's output alone: all snapshots of one handle (between re-bindings) "
-            "are bitwise identical; also compared with the model; distinct = distinct program text",
+            "are bitwise identical; also compared with the model; plus graphs over user-defined operations whose "
+            "derivative closures keep a handle (and a copy of the values) of every array they return: at the end of the "
+            "program the harness reports how many of those arrays changed (must be none); distinct = distinct program text",
     "exhaustive": {"quick": False, "thorough": False},
     "assumptions": ["mutation through unsafe code or FFI that no generated history exercises is only visible to the "
                     "source audit reported in the evidence (informational)"],
-    "post": ["immutable"],
+    "post": ["immutable", "kept_unchanged"],
     "audit": True,
 }
 
@@ -3014,6 +3145,24 @@ def gen_C19(tier, rng):
                 continue
             c["cls"] = "%s:%s" % (pid, c.get("cls", ""))
             cases.append(round_case_f32(c))
+    # softmax / sigmoid / exp on rows of very different scales, every value inside binary32's exp range (|x| <= 80):
+    # each row must come out to single precision whatever the other rows hold
+    for k in range(60 if tier == "quick" else 800):
+        rows, n = rng.randint(2, 4), rng.randint(1, 4)
+        tr = k % 2 == 1
+        # with a backward pass the quotient rule squares the row sums: the logits stay where exp(x)^2 is finite
+        # in binary32 (an intermediate overflow is not a rounding error and is outside the property)
+        pool_ = [-38.0, -30.0, -20.0, 0.0, 20.0, 30.0, 38.0] if tr else [-80.0, -58.0, -40.0, 0.0, 40.0, 60.0, 80.0]
+        base = [rng.choice(pool_) for _ in range(rows)]
+        vals = [f32(b_ + rng.uniform(-3, 3)) for b_ in base for _ in range(n)]
+        s = rng.choice([[rows, n], [1, rows, n], [rows, 1, n]])
+        ins = [("leaf", tr, s, vals), ("op", ("softmax",), [0]), ("op", ("sigmoid",), [0]), ("op", ("exp",), [0])]
+        if tr:
+            ins += [("backward", 1, (s, [f32(rng.uniform(-1, 1)) for _ in vals])), ("grad", 0)]
+        c = case("scales", ins, "rows_of_different_scales")
+        c["rtol"] = 2e-4
+        c["scale_tol"] = False
+        cases.append(c)
     # tiny magnitudes (1e-25 .. 1e-6, normal binary32 numbers): operations without cancellation, compared with a
     # tolerance RELATIVE to each value (an absolute tolerance would accept any answer here); relu's mask included
     for k in range(80 if tier == "quick" else 1000):
